@@ -436,6 +436,41 @@ func probeFuncs() []transFunc {
 	for _, n := range []string{"probeDefer", "probeNilable", "probeFnValues"} {
 		out = append(out, transFunc{file: pf, recv: "probeRec", name: n, lean: n, fields: recFields, types: pairT, structs: pairS, calls: recCalls})
 	}
+	// round 4: see harness/cmd/zvh/trans_probe4.go
+	p4 := "@verif/harness/cmd/zvh/trans_probe4.go"
+	lvlConsts := map[string]string{"probeLo": "src", "probeMid": "src", "probeHi": "src", "probeMin": "src", "probeMax": "src", "probeInv": "src"}
+	lvlT := map[string]string{"probeLvl": "i8"}
+	lvlSelf := &fieldSpec{"lvl", "i8"}
+	toLower := shim{kind: "ext", f: "bytes.ToLower", res: []string{"bytes"}}
+	out = append(out,
+		transFunc{file: p4, recv: "probeLvl", name: "set", lean: "probeSet", recvAs: lvlSelf, types: lvlT, consts: lvlConsts},
+		transFunc{file: p4, recv: "probeLvl", name: "setFolded", lean: "probeSetFolded", recvAs: lvlSelf, recvNil: "isnil", types: lvlT, consts: lvlConsts,
+			calls: map[string]shim{"recv.set": {kind: "fun", f: "probeSet", res: []string{"bool"}}, "bytes.ToLower": toLower}},
+		transFunc{file: p4, name: "probeParse", lean: "probeParse", types: lvlT, consts: lvlConsts,
+			calls: map[string]shim{"i8.setFolded": {kind: "funaddr", f: "probeSetFolded", res: []string{"int"}, flds: []string{"lvl"}, with: []string{"isnil"}}}},
+		transFunc{file: p4, name: "probeScan", lean: "probeScan", types: lvlT, consts: lvlConsts},
+		transFunc{file: p4, name: "probeDecode", lean: "probeDecode",
+			types:   map[string]string{"struct{L}": "struct:probePld", "out": "struct:probeOut"},
+			structs: map[string][]fieldSpec{"probePld": {{"L", "opt:int"}}, "probeOut": {{"V", "int"}, {"OK", "bool"}}},
+			calls:   map[string]shim{"probeFill": {kind: "mutarg:1", f: "probe.fill", res: []string{"bool"}}}},
+		transFunc{file: p4, name: "probeCallVariadic", lean: "probeCallVariadic",
+			calls: map[string]shim{"probeVariadic": {kind: "fun", f: "probeVariadic", res: []string{"int"}, vari: 2}}},
+		transFunc{file: p4, name: "probeCapped", lean: "probeCapped", noFieldAppend: true},
+		transFunc{file: p4, recv: "probeOnceT", name: "get", lean: "probeOnceGet",
+			fields: map[string]fieldSpec{"once": {"done", "bool"}, "v": {"v", "int"}},
+			calls:  map[string]shim{"recv.once.Do": {kind: "once", flds: []string{"once"}}}},
+		transFunc{file: p4, recv: "probeOnceT", name: "getTwice", lean: "probeOnceTwice",
+			fields: map[string]fieldSpec{"once": {"done", "bool"}, "v": {"v", "int"}},
+			calls:  map[string]shim{"recv.get": {kind: "fun", f: "probeOnceGet", res: []string{"int"}}}},
+		transFunc{file: p4, name: "probeTypeSwitch", lean: "probeTypeSwitch", types: map[string]string{"interface{}": "Any"},
+			calls: map[string]shim{".(int)": {kind: "extstmt", f: "probe.asInt", res: []string{"int", "bool"}},
+				".(string)": {kind: "extstmt", f: "probe.asString", res: []string{"string", "bool"}}}},
+		transFunc{file: p4, name: "probeBoxed", lean: "probeBoxed",
+			types:   map[string]string{"probeBox": "struct:probeBox"},
+			structs: map[string][]fieldSpec{"probeBox": {{"buf", "Buffer"}, {"n", "int"}}},
+			calls: merge(bufferCalls, map[string]shim{"probeNewBuf": {kind: "lit", f: ".bytes []", res: []string{"Buffer"}},
+				"probeWrite": {kind: "mutarg:0", f: "probe.write"}})},
+	)
 	return out
 }
 
